@@ -323,7 +323,11 @@ package rewriter
 //@   ensures[for] !isnil(post) ==> IsSeqCall(r, cstFor) && len(r.Args) == 3 && r.Args[1] == post && r.Args[2] == body
 //@        && (!isnil(cond) ==> r.Args[0] == cond) && (isnil(cond) ==> isa(r.Args[0], Ident) && same(as(r.Args[0], Ident).Name, "nil"))
 //@   ensures[wf-out] forall j: Int :: 0 <= j && j < len(r.Args) ==> !isnil(r.Args[j])
+//@ -- D34: the condition thunk is `func() bool { return cond }`: cond has to be of type bool, a named boolean type (type flag bool) needs bool(cond)
+//@ pred BoolCond(cond ast.Expr) := isnil(cond) || !isa(typeOfExpr(cond), types.Named)
+//@        || (isa(cond, CallExpr) && len(as(cond, CallExpr).Args) == 1 && RefersTo(as(cond, CallExpr).Fun, "bool"))
 //@ func (y *yieldAst) ForCondFun(cond) (r)
+//@   requires[bool-typed] BoolCond(cond)
 //@   ensures[nil] isnil(cond) ==> r == nil
 //@   ensures[fun] !isnil(cond) ==> fresh(r) && r.Body != nil && len(r.Body.List) == 1 && isa(r.Body.List[0], ReturnStmt)
 //@        && len(as(r.Body.List[0], ReturnStmt).Results) == 1 && as(r.Body.List[0], ReturnStmt).Results[0] == cond
